@@ -252,6 +252,69 @@ theorem drive_full_accept (fx : Fixes) (N : Nat) (hN : 0 < N) :
         simp only [drive, takeBuf, hw, hm, hN0, if_false, hf, push_cl, push_done]
         simpa [hw, flat, List.append_assoc] using this
 
+@[simp] theorem push_attempts (n : Nat) (o : DriveOut) : (o.push n).attempts = n :: o.attempts := rfl
+
+/-- `drive_connection` comes back (`false`) with frames still queued only after the socket refused: it leaves
+    its loop early only on `WouldBlock` or a short write, both park the unwritten bytes in `wbuf`, and at least
+    one `write` was attempted.  (A queue that is merely non-empty -- a freshly accepted client's metadata, a
+    backlog the socket would take now -- is always flushed.) -/
+theorem drive_queue_left_parked (fx : Fixes) (hfx : fx.block = true) :
+    ∀ (rs : List WriteResult) (cl : Client),
+      (drive fx cl rs).done = false → (drive fx cl rs).cl.msgs ≠ [] →
+      (drive fx cl rs).cl.wbuf.isSome = true ∧ (drive fx cl rs).attempts ≠ [] := by
+  intro rs
+  induction rs with
+  | nil =>
+    intro cl
+    cases hw : cl.wbuf with
+    | some b => simp [drive, takeBuf, hw, onBlock, hfx]
+    | none =>
+      cases hm : cl.msgs with
+      | nil => simp [drive, takeBuf, hw, hm]
+      | cons f rest => simp [drive, takeBuf, hw, hm, onBlock, hfx]
+  | cons r rs ih =>
+    intro cl
+    cases hw : cl.wbuf with
+    | some b =>
+      cases r with
+      | ok n =>
+        by_cases h0 : n = 0
+        · simp [drive, takeBuf, hw, h0]
+        · by_cases hlt : n < b.length
+          · simp [drive, takeBuf, hw, h0, hlt]
+          · have := ih { cl with wbuf := none, received := cl.received ++ b }
+            simp only [drive, takeBuf, hw, h0, hlt, if_false, push_cl, push_done, push_attempts]
+            intro hd hm
+            exact ⟨(this hd hm).1, by simp⟩
+      | wouldBlock => simp [drive, takeBuf, hw, onBlock, hfx]
+      | interrupted =>
+        have := ih (onBlock fx b { cl with wbuf := none })
+        simp only [drive, takeBuf, hw, push_cl, push_done, push_attempts]
+        intro hd hm
+        exact ⟨(this hd hm).1, by simp⟩
+      | err => simp [drive, takeBuf, hw]
+    | none =>
+      cases hm : cl.msgs with
+      | nil => simp [drive, takeBuf, hw, hm]
+      | cons f rest =>
+        cases r with
+        | ok n =>
+          by_cases h0 : n = 0
+          · simp [drive, takeBuf, hw, hm, h0]
+          · by_cases hlt : n < f.bytes.length
+            · simp [drive, takeBuf, hw, hm, h0, hlt]
+            · have := ih { cl with wbuf := none, msgs := rest, started := cl.started ++ [f], received := cl.received ++ f.bytes }
+              simp only [drive, takeBuf, hw, hm, h0, hlt, if_false, push_cl, push_done, push_attempts]
+              intro hd hm'
+              exact ⟨(this hd hm').1, by simp⟩
+        | wouldBlock => simp [drive, takeBuf, hw, hm, onBlock, hfx]
+        | interrupted =>
+          have := ih (onBlock fx f.bytes { cl with wbuf := none, msgs := rest, started := cl.started ++ [f] })
+          simp only [drive, takeBuf, hw, hm, push_cl, push_done, push_attempts]
+          intro hd hm'
+          exact ⟨(this hd hm').1, by simp⟩
+        | err => simp [drive, takeBuf, hw, hm]
+
 /-! ### `enqueue` -/
 
 theorem toDrain_le (lim m b : Nat) (hb : b ≤ lim) : toDrain lim m b ≤ m := by
